@@ -132,6 +132,10 @@ BaseVal(b) ==
 
 VW(w) == [w |-> w, ds |-> <<>>, f |-> "", from |-> "", to |-> ""]
 IdentityValueWrappers == {"Some", "Box", "Arc", "Cow", "Ref"}
+\* the same containers reached through a ValueFormatter lifted over them (value/formatter.rs):
+\* FormattedValue<Option<V>, F> etc. with a formatter F that writes V itself
+FormatterLifted == {"FmtSome", "FmtBox", "FmtArc", "FmtCow", "FmtRef"}
+IsNoneW(w) == w = "None" \/ w = "FmtNone"
 
 AddDims(c, ds) == IF c.kind = "metric" THEN [c EXCEPT !.dims = @ \o ds] ELSE c
 AddFlag(c, f) == IF c.kind = "metric" THEN [c EXCEPT !.flags = @ \cup {f}] ELSE c
@@ -155,7 +159,7 @@ CanApplyV(w, v) == w.w = "Unit" => (w.from = v.prom /\ Convertible(U(w.from), U(
 ApplyV(w, v) ==
     CASE w.w = "Dim"  -> [v EXCEPT !.call = AddDims(@, w.ds)]
       [] w.w = "Flag" -> [v EXCEPT !.call = AddFlag(@, w.f)]
-      [] w.w = "None" -> [v EXCEPT !.call = NoCall]
+      [] IsNoneW(w.w) -> [v EXCEPT !.call = NoCall]
       [] w.w = "Unit" -> [call |-> ConvertCall(v.call, w.from, w.to), prom |-> w.to]
       [] OTHER        -> v
 
@@ -179,7 +183,7 @@ Min(S) == CHOOSE x \in S : \A y \in S : x <= y
 DenoteV(b, s) ==
     LET base == BaseVal(b).call
         ul == UnitLayers(s)
-    IN  IF \E i \in DOMAIN s : s[i].w = "None" THEN NoCall   \* an empty Option: no call at all, whatever is around it
+    IN  IF \E i \in DOMAIN s : IsNoneW(s[i].w) THEN NoCall   \* an empty Option: no call at all, whatever is around it
         ELSE CASE base.kind = "nothing" -> NoCall
                [] base.kind = "error"   -> base
                [] base.kind = "string"  -> IF ul = {} THEN base ELSE ErrorCall("unit-on-string")
@@ -225,10 +229,10 @@ BaseEntry(b) == CASE b = "E" -> EntryE [] b = "G" -> EntryG [] b = "0" -> EntryE
 
 (* Entry wrappers: [w, ds, deny, f] *)
 EW(w) == [w |-> w, ds |-> <<>>, deny |-> {}, f |-> ""]
-MergeFirst == {"MergeG", "MergeRef", "MergeStream"}      \* globals' items first
+MergeFirst == {"MergeG", "MergeRef", "MergeStream", "MergeFormat"}   \* globals' items first (entry, stream, format)
 MergeLast == {"MergeAfter"}                              \* entry.merge(other): other's items last
 DimAll == {"EDims", "RootDims"}                          \* WithDimensions<E> as Entry / InflectableEntry
-DimDeny == {"GDims", "GDimsStream"}                      \* WithGlobalDimensions / MergeGlobalDimensions
+DimDeny == {"GDims", "GDimsStream", "GDimsFormat"}       \* WithGlobalDimensions / MergeGlobalDimensions (stream, format)
 FlagAll == {"EFlag", "RootFlag", "FlagStream"}           \* ForceFlag<E> as Entry / InflectableEntry / stream
 IdentityEntryWrappers == {"Boxed", "Root", "Some", "Box", "Arc", "Cow", "Ref", "RootSome", "RootBox", "RootArc"}
 
